@@ -76,6 +76,7 @@ class State:
         self.ret = None
         self.local_arrays: set = set()
         self.level: dict = {}  # scalar name -> generic-loop depth at its last plain assignment
+        self.glevel: dict = {}  # scalar / cell -> number of guards in force at its last plain assignment
         self.guards: list = []  # indicator factors of the data-dependent conditions that enclose the current statement
 
     # -- expressions --------------------------------------------------------
@@ -244,21 +245,24 @@ class State:
         raise AnalysisError(f"{self.ex.where}::{self.fname}: expression kind {k}: {cast.text(e)}")
 
     # -- statements ---------------------------------------------------------
-    def guard_factor(self):
+    def guard_factor(self, since=0):
+        """Product of the indicator factors established after the target was last (re)initialised: a temporary that
+        is reset inside the guarded region needs no factor of its own."""
         g = sp.Integer(1)
-        for x in self.guards:
+        for x in self.guards[since:]:
             g = g * x
         return g
 
     def store(self, lhs, val, op="="):
         lhs = _unwrap(lhs)
-        if self.guards and op in ("+=", "-="):
-            val = val * self.guard_factor()
         if lhs.get("kind") == "DeclRefExpr":
             nm = lhs["referencedDecl"]["name"]
+            if self.guards and op in ("+=", "-="):
+                val = val * self.guard_factor(self.glevel.get(nm, 0))
             if op == "=":
                 self.scalars[nm] = val
                 self.level[nm] = len(self.loopvars)
+                self.glevel[nm] = len(self.guards)
             else:
                 cur = self.scalars.get(nm)
                 if cur is None:
@@ -282,9 +286,12 @@ class State:
             ckey = (base, tuple(str(x) for x in idx))
             if self.guards and op == "=" and (base in self.alias or base not in self.local_arrays):
                 raise AnalysisError(f"{self.ex.where}::{self.fname}: plain store into '{base}' under a data-dependent condition is outside the modelled fragment")
+            if self.guards and op in ("+=", "-="):
+                val = val * self.guard_factor(self.glevel.get(ckey, 0))
             if op == "=":
                 new = val
                 self.level[ckey] = len(self.loopvars)
+                self.glevel[ckey] = len(self.guards)
             else:
                 cur = self.read_cell(base, idx)
                 lvl = self.level.get(ckey, 0)
